@@ -127,7 +127,7 @@ def run_case(case, res):
         res.violation(field.split(':')[-1], case, dict(field=field, **{
             a: b for a, b in detail.items() if a in ('error', 'height', 'limit', 'stale', 'depth',
                                                      'script', 'fields', 'cp_height')}))
-    if case['limit'] == 2 and case['depth'] == 2 and case.get('k') == 14:
+    if case['limit'] == 2 and case['depth'] == 2 and case.get('k') in (0, 14, 15):
         res.sample(case, cap=2)
 
 
